@@ -99,7 +99,7 @@ def run(tier):
             tot[k] += sm.get(k, 0)
         for i, n in enumerate(sm.get("calls", [])):
             calls[i] += n
-        if sm["overflow"]:
+        if sm.get("overflow") or sm.get("aborted"):
             ck.exhaustive = False
         for v in res["viols"]:
             ck.violation("C11:%s:%s" % (job["tag"], v.get("what", v.get("msg", v["viol"]))),
